@@ -115,6 +115,8 @@ Ltac bsolve :=
   | |- (_ <? _)%Z = false => apply Z.ltb_ge; lia
   | |- (_ <=? _)%Z = true => apply Z.leb_le; lia
   | |- (_ <=? _)%Z = false => apply Z.leb_gt; lia
+  | |- (_ >? _)%Z = true => apply Z.gtb_lt; lia
+  | |- (_ >? _)%Z = false => rewrite Z.gtb_ltb; apply Z.ltb_ge; lia
   | |- (_ =? _)%Z = true => apply Z.eqb_eq; lia
   | |- (_ =? _)%Z = false => apply Z.eqb_neq; lia
   end.
